@@ -2,7 +2,7 @@
      <cwd-hex> <argv0-hex> <argv1-hex> ... | NAME=<hex> ...
    for the environment variable names listed (comma separated) in $ARGVREC_ENV.
    If $ARGVREC_TOUCH is set, every argument following "-o" and every name in $ARGVREC_TOUCH_ARGS
-   is created as an empty file so that Make sees the step's output. Exit status 0. */
+   is created as an empty file so that Make sees the step's output. Exit status 0 (1 for $ARGVREC_FAIL, see below). */
 #include <stdio.h>
 #include <stdlib.h>
 #include <string.h>
@@ -34,6 +34,11 @@ int main(int argc, char **argv) {
   }
   fputc('\n', f);
   if (out) fclose(f);
+  /* a step that fails: with $ARGVREC_FAIL set, an invocation one of whose arguments equals it is recorded, creates
+     nothing and exits with status 1 */
+  const char *failarg = getenv("ARGVREC_FAIL");
+  if (failarg && failarg[0])
+    for (int i = 1; i < argc; i++) if (!strcmp(argv[i], failarg)) return 1;
   if (getenv("ARGVREC_TOUCH") && getenv("ARGVREC_TOUCH")[0]) {
     /* ar-style invocation: ar rcs libx.a objs... */
     if (argc > 2 && argv[1][0] != '-' && strlen(argv[2]) > 2 && !strcmp(argv[2] + strlen(argv[2]) - 2, ".a")) {
